@@ -30,12 +30,31 @@ def svc_in(s):
 
 def svc_entry(v):
     proto, port = v.split("/")
+    if proto == "ICMP":       # "ICMP/<type>" or "ICMP/" (every type); "ICMP/8.0" = type 8 code 0
+        e = {"id": "id", "resource_type": "ICMPTypeServiceEntry", "protocol": "ICMPv4"}
+        if port != "":
+            t, _, c = port.partition(".")
+            e["icmp_type"] = int(t)
+            if c != "":
+                e["icmp_code"] = int(c)
+        return e
+    if proto == "IPP":        # "IPP/<protocol number>"
+        return {"id": "id", "resource_type": "IPProtocolServiceEntry", "protocol_number": int(port)}
     return {"id": "id", "resource_type": "L4PortSetServiceEntry", "l4_protocol": proto,
             "destination_ports": [port], "source_ports": []}
 
 
 def svc_val(entries):
     e = entries[0]
+    if e["resource_type"] == "ICMPTypeServiceEntry":
+        v = "ICMP/"
+        if e.get("icmp_type") is not None:
+            v += str(e["icmp_type"])
+            if e.get("icmp_code") is not None:
+                v += "." + str(e["icmp_code"])
+        return v
+    if e["resource_type"] == "IPProtocolServiceEntry":
+        return "IPP/%d" % e["protocol_number"]
     return "%s/%s" % (e["l4_protocol"], e["destination_ports"][0])
 
 
